@@ -63,7 +63,22 @@ pub fn check(mut ctx: Ctx, replay: Option<J>) -> ! {
   let cf = table(&|a, b| a.is_conformant(b));
   let co: Vec<Vec<J>> = types.iter().map(|t| vals.iter().map(|v| enc_value(&t.coerced(v))).collect()).collect();
   let co2: Vec<Vec<J>> = types.iter().map(|t| vals.iter().map(|v| enc_value(&t.coerced(&t.coerced(v)))).collect()).collect();
-  let rec = json!({"U": universe, "eq": eq, "cf": cf, "V": venc, "co": co, "co2": co2});
+  // coercion where the evaluator applies it: parameters of a user-defined function, positional and named invocation
+  let invoke = |t: &FeelType, v: &dmntk_feel::values::Value, named: bool| -> J {
+    let scope = dmntk_feel::Scope::default();
+    scope.set_entry(&Name::from("v"), v.clone());
+    let text = format!("{{f: function(x: {}) x, r: f({})}}.r", t, if named { "x: v" } else { "v" });
+    match dmntk_feel_parser::parse_expression(&scope, &text, false) {
+      Ok(node) => match dmntk_feel_evaluator::evaluate(&scope, &node) {
+        Ok(r) => enc_value(&r),
+        Err(_) => json!({"k": "error"}),
+      },
+      Err(_) => json!({"k": "unparsable"}), // the type has no FEEL surface syntax (e.g. context<>): not judged here
+    }
+  };
+  let inv_pos: Vec<Vec<J>> = types.iter().map(|t| vals.iter().map(|v| invoke(t, v, false)).collect()).collect();
+  let inv_named: Vec<Vec<J>> = types.iter().map(|t| vals.iter().map(|v| invoke(t, v, true)).collect()).collect();
+  let rec = json!({"U": universe, "eq": eq, "cf": cf, "V": venc, "co": co, "co2": co2, "inv_pos": inv_pos, "inv_named": inv_named});
   // anti-vacuity: flip one conformance cell
   if replay.is_none() {
     let mut bad = rec.clone();
@@ -92,7 +107,7 @@ pub fn check(mut ctx: Ctx, replay: Option<J>) -> ! {
       }
     }
     let mut vs = vec![];
-    if law.starts_with("coercion") {
+    if law.starts_with("coercion") || law.starts_with("invocation") {
       vs.push(values[x - 1].clone());
       text.push_str(&format!(" value {} -> {}", vals[x - 1], types[i - 1].coerced(&vals[x - 1])));
     } else if x > 0 {
